@@ -212,3 +212,30 @@ func H_C03_3_Keep() {
 	verif.Assert("committed-stores-equal", model.SameContent(ex.MS, ey.MS))
 	verif.Assert("committed-events-equal", EventsEqual(ex.Ctx.EventManager().Events(), ey.Ctx.EventManager().Events()))
 }
+
+// H_C08_1_StateDBIsolation: without CommitMultiStore nothing a StateDB does - any of the 14 operations,
+// optionally bracketed by snapshot / revert - reaches the stores or the event manager of the context it was
+// created from.
+func H_C08_1_StateDBIsolation() {
+	a := NewAcct("a", plainKinds, true, true, false)
+	b := NewAcct("b", plainKinds, false, false, false)
+	accts := []*Acct{a, b}
+	verif.Assume(a.Addr != b.Addr)
+	addrs := []common.Address{a.Addr, b.Addr}
+	q := NewOp("Q", allOps, addrs)
+	e := newWorld(accts, supplyRest())
+	before := e.MS.Snapshot()
+	events0 := len(e.Ctx.EventManager().Events())
+	sdb := e.NewStateDB(e.Ctx, common.Address{})
+	bracket := verif.Choice("bracket", 3) // none, snapshot (kept), snapshot + revert
+	s := 0
+	if bracket > 0 {
+		s = sdb.Snapshot()
+	}
+	verif.Try(func() { q.Apply(e, sdb) })
+	if bracket == 2 {
+		sdb.RevertToSnapshot(s)
+	}
+	verif.Assert("uncommitted-statedb-leaves-original-stores", model.SameContent(before, e.MS))
+	verif.Assert("uncommitted-statedb-emits-nothing-to-original-context", len(e.Ctx.EventManager().Events()) == events0)
+}
